@@ -1,7 +1,8 @@
 (* C19 driver: replays the IN lines of harness/c19_sr.cpp on the extracted model (Model/SuspendResume.v).
    SEQ: every op is executed by a fresh client thread; all threads are scheduled round-robin (only enabled ones)
    until nobody is enabled; then the error flag of the call, the worker states and the number of executed tasks
-   are printed.  GATE: the two scripted hand-shake schedules of the harness. *)
+   are printed.  GATE: the scripted hand-shake schedules of the harness.  LOWP: the schedule of the low-priority finding
+   (Proofs: lowprio_suspend_stuck_refuted). *)
 let kv s = match String.index_opt s '=' with
   | Some i -> (String.sub s 0 i, String.sub s (i + 1) (String.length s - i - 1)) | None -> (s, "")
 let ios = int_of_string
@@ -52,9 +53,9 @@ let api_of tok =
   else if op = "TN" then ASubmit None
   else ASubmit (Some (num 1))
 
-let is_call = function ASubmit _ -> false | _ -> true
+let is_call = function ASubmit _ | ASubmitLow _ -> false | _ -> true
 let done_cl = function LClient cl -> cl.todo = [] | _ -> true
-let client s t a = s.ls.(t) <- LClient { todo = expand s.cfg a; ph = Ph0; err = false }
+let client s t a = s.ls.(t) <- LClient { todo = expand s.cfg a; ph = Ph0; err = false; vl = false }
 let nexec s = List.length s.g.executed
 let last_err s = match s.g.calls with ((_, _), e) :: _ -> e | [] -> false
 
@@ -145,6 +146,36 @@ let () =
           Printf.printf "OUT GATE %s reached=%d early_return=%d states_at_return=%s ran_after_resume=%d err=%d\n" id
             (if reached then 1 else 0) (if early then 1 else 0) st_ret (if nexec s = 1 then 1 else 0) (if last_err s then 1 else 0)
         end
+      | "IN" :: "LOWP" :: id :: rest ->
+        let f = List.map kv rest in
+        let n = ios (List.assoc "nw" f) in
+        let k = ios (List.assoc "n" f) in
+        let cfgv = { nw = nat_of_int n; elastic = (List.assoc "el" f = "1"); stealing = (List.assoc "st" f = "1") } in
+        let s = mk cfgv (k + 2) in
+        let last = n - 1 in
+        (* the last worker runs to its idle branch with running = true and is parked there *)
+        let j = ref 0 in
+        while s.ls.(last) <> LWorker (WIdle true) && !j < 1000 do stept s last; incr j done;
+        let reached = (s.ls.(last) = LWorker (WIdle true)) in
+        (* k low-priority tasks are staged (the other workers keep polling) *)
+        for i = 0 to k - 1 do
+          client s (n + i) (ASubmitLow None);
+          j := 0;
+          while not (done_cl s.ls.(n + i)) && !j < 10000 do
+            stept s (n + i);
+            for w = 0 to last - 1 do stept s w done;
+            incr j done
+        done;
+        (* suspend_processing_unit(last): CAS under the PU lock, then the caller waits *)
+        let tS = n + k in
+        client s tS (ASuspendPU (nat_of_int last, false));
+        j := 0;
+        while en s tS && !j < 1000 do stept s tS; incr j done;
+        (* the worker is released; everybody runs until nobody is enabled *)
+        let quiet = run_quiet s in
+        let ret = done_cl s.ls.(tS) in
+        Printf.printf "OUT LOWP %s reached=%d returned=%d done_then=%d of=%d states_then=%s no_progress=%d\n" id
+          (if reached then 1 else 0) (if ret then 1 else 0) (nexec s) k (states s) (if quiet && not ret then 1 else 0)
       | _ -> ()
     done
   with End_of_file -> ()
